@@ -158,6 +158,9 @@ class LenInterp:
             for t in st.targets:
                 if isinstance(t, ast.Name):
                     env[t.id] = v
+                elif isinstance(t, (ast.Tuple, ast.List)) and isinstance(v, tuple) and len(v) == len(t.elts) and all(isinstance(x, ast.Name) for x in t.elts):
+                    for x, vv in zip(t.elts, v):
+                        env[x.id] = vv
                 else:
                     raise Incomplete(site(st), 'assignment target outside the length language')
             return True
@@ -290,6 +293,8 @@ class LenInterp:
             # band_values[-1:0:-1] : reversed without the first element
             if isinstance(sl.lower, ast.UnaryOp) and ast.unparse(sl) == '-1:0:-1':
                 return Arr(n - Poly.const(1))
+            if sl.lower is None and sl.upper is None and isinstance(step, Poly) and (step + Poly.const(1)).is_zero():
+                return Arr(n)  # [::-1]: the whole array, reversed
             raise Incomplete(site(node), 'strided slice')
         if sl.upper is None:
             hi = n
@@ -385,6 +390,8 @@ class LenInterp:
                     return Arr(args[0].n + w[0] + w[1])
                 if isinstance(w, tuple) and len(w) == 1:
                     return Arr(args[0].n + w[0].scale(2))
+                if isinstance(w, Poly):
+                    return Arr(args[0].n + w.scale(2))  # a scalar width pads both ends
             if short in ('fft.fft', 'fft.ifft'):
                 axis = kw.get('axis', Poly.const(-1))
                 if not (isinstance(axis, Poly) and axis.is_const() and int(axis.const_value()) in (-1, len(args[0].dims) - 1)):
